@@ -100,8 +100,10 @@ def make_ops(rng, cfg, profile, tier):
                         'a': [rng.randrange(1 << 16), rng.random() < 0.5]})
         elif r < 0.47:
             ops.append({'op': 'DUMP_DB', 'a': []})
-        elif r < 0.52:
+        elif r < 0.50:
             ops.append({'op': 'VALIDATE', 'a': [rng.randrange(1 << 16), rng.choice([2, 3])]})
+        elif r < 0.52:
+            ops.append({'op': 'CATALOG', 'a': [mi, rng.random() < 0.5]})
         elif r < 0.58:
             ops.append({'op': 'FLATTEN_SAVE', 'a': []})
         elif r < 0.70:
@@ -429,6 +431,31 @@ class Session:
                     if ok3 and len(new) != 1:
                         ctx.fail('I14.2', f'validate() produced {new} as new validation files')
                     ctx.log(kind, model, sorted(f for f in post if f not in pre))
+        elif kind == 'CATALOG':
+            # estimate_catalog: one estimation per configuration, each writing its own report files
+            import biogeme.expressions as ex
+            from biogeme.catalog import Catalog
+            from biogeme.expressions import NamedExpression
+            model = MODELS[a[0]]
+            b0 = self._biogeme(model, html=True, pick=True)
+            extra = Catalog('extra', [NamedExpression('none', ex.Numeric(0)),
+                                      NamedExpression('sq', ex.Beta('bsq', 0, None, None, 0) * ex.Variable('x0') * ex.Variable('x0') * 0.01)])
+            import biogeme.biogeme as bio
+            import biogeme.database as db
+            b = bio.BIOGEME(db.Database(self.cfg['dbname'], self.table.copy()), b0.log_like - extra * extra,
+                            parameters=b0.biogeme_parameters)
+            b.modelName = model
+            ok, res_ = self._lib('I14.raise', b.estimate_catalog, quick_estimate=a[1])
+            post = snapshot(ctx.scratch)
+            new = sorted(f for f in post if f not in pre)
+            if ok:
+                if len(res_) != 2:
+                    ctx.fail('I14.2', f'estimate_catalog returned {len(res_)} results for 2 configurations')
+                if not a[1]:
+                    for cid, r in res_.items():
+                        for fn in (r.data.htmlFileName, r.data.pickleFileName):
+                            self._fresh(fn, pre, f'estimate_catalog [{cid}]')
+            ctx.log(kind, model, new)
         elif kind == 'FLATTEN_SAVE':
             import biogeme.database as db
             t = self.table.copy().sort_values('grp', kind='stable').reset_index(drop=True)
